@@ -306,13 +306,12 @@ def cfunc_calls(tier):
                     args.append('%s=%s' % (prm, mk(prm)))
                 out.append(('cfunc-call/%s/pos%d/%s' % (fname, npos, ''.join(perm) or '-'), 'return %s(%s)' % (fname, ', '.join(args)), 'c'))
     # optional parameters: every subset of the optional keywords in every order, after 1 positional
+    # (gaps in the optional parameters are a documented limitation of C function calls: only prefixes of b, c, d)
     for r in range(0, 4):
-        for perm in itertools.permutations('bcd', r):
+        for perm in itertools.permutations('bcd'[:r], r):
             args = ['A(1)'] + ['%s=A(%d)' % (prm, i + 2) for i, prm in enumerate(perm)]
             out.append(('cfunc-call/D4/opt/%s' % (''.join(perm) or '-'), 'return D4(%s)' % ', '.join(args), 'c'))
-        for perm in itertools.permutations('abcd', r + 1):
-            if 'a' not in perm:
-                continue
+        for perm in itertools.permutations('abcd'[:r + 1], r + 1):
             args = ['%s=A(%d)' % (prm, i + 1) for i, prm in enumerate(perm)]
             out.append(('cfunc-call/D4/kw-only/%s' % ''.join(perm), 'return D4(%s)' % ', '.join(args), 'c'))
     out.append(('cfunc-call/nested', 'return G3(c=G3(c=A(1), a=A(2), b=A(3)), b=G3(A(4), c=A(5), b=A(6)), a=A(7))', 'c'))
@@ -350,6 +349,14 @@ def functions(tier):
     return out
 
 
+def build_key(m, r):
+    tags = [f.tag for f in m.funcs]
+    t = tags[0] if tags else m.name
+    if t.startswith('cfunc-call/'):
+        return 'build-failure|%s|cfunc-call' % r.stage
+    return 'build-failure|%s|%s' % (r.stage, t)
+
+
 def keyfn(tag, inp, exp, got):
     """skeleton class (boolean truth assignments and nesting indices collapsed) | first divergent event class | divergence"""
     div = e2.divclass(exp, got)
@@ -378,6 +385,7 @@ def keyfn(tag, inp, exp, got):
         t = '/'.join(t.split('/')[:2])
     if t.startswith('cfunc-call/'):
         t = '/'.join(t.split('/')[:2])
+        where = 'leaf-order' if where == 'leaf->leaf' else 'passed-arguments' if where else ''
     if t.startswith(('call/', 'mcall/')):
         kinds = ''.join(sorted(set(t.split('/')[1])))
         t = t.split('/')[0] + '/{' + kinds + '}'
@@ -398,10 +406,11 @@ def run(ctx):
             name = 'f%d' % n
             src = 'def %s():\n%s\n' % (name, '\n'.join('    ' + l for l in body.split('\n')))
             parts.append(e2.Part(src, [e2.Func(name, tag, 'none')]))
-        for i in range(0, len(parts), per):
-            mods.append(e2.Mod('c20%s_%d' % (kind, i // per), prelude, parts[i:i + per], {'none': [()]}, ext='.py', use_log=True))
+        step = per if kind != 'c' else 8          # small modules: cheap bisection if a call layout is rejected
+        for i in range(0, len(parts), step):
+            mods.append(e2.Mod('c20%s_%d' % (kind, i // step), prelude, parts[i:i + step], {'none': [()]}, ext='.py', use_log=True))
     ctx.log('%d skeleton functions in %d modules' % (len(fl), len(mods)))
-    st = g5.run_diff(ctx, mods, keyfn=keyfn, reach=REACH, timeout=300)
+    st = g5.run_diff(ctx, mods, keyfn=keyfn, reach=REACH, timeout=300, build_key=build_key)
     samples = [{'tag': fl[i][0], 'body': fl[i][1]} for i in (0, len(fl) // 3, len(fl) // 2, len(fl) - 1)] if fl else [{'filter': flt}]
     cov = g5.cov_from(st, 'every skeleton is one evaluation; counted once per distinct (skeleton, reference event log + outcome)', samples,
                       {'call_layouts': len(call_layouts(4)), 'statement_skeletons': len(STMTS), 'bool_shapes': len(BOOL_SHAPES),
